@@ -459,6 +459,8 @@ def isvar(x, path, vidx):
     if x.op == "upd":
         # a field update does not change the variant
         return boolean(x.a[1] == vidx) if False else isvar(x.a[0], path, vidx)
+    if x.op == "loop_pick" and len(x.a) == 2 and isinstance(x.a[1], T) and x.a[1].op == "adt":
+        return boolean(x.a[1].a[1] == vidx)      # the value an iteration left the loop with
     return mk("isvar", x, path, vidx)
 
 
